@@ -37,6 +37,7 @@ type EnvSpec struct {
 	GCBefore bool  `json:"gc_before,omitempty"`
 	GOGC     int   `json:"gogc,omitempty"`     // 0 = leave
 	Pollute  int   `json:"pollute,omitempty"`  // unrelated builds first, in the same process
+	Twin     bool  `json:"twin,omitempty"`     // first build another revision of the same program's synthetic dependencies (same import paths, other contents)
 	Scramble int   `json:"scramble,omitempty"` // small objects per size class allocated and partly freed (pattern from Ballast) so that later allocations fill holes in scrambled address order
 }
 
@@ -47,9 +48,12 @@ type Record struct {
 }
 
 var env *run.Env
+
 var ballastSink [][]byte
 var scrambleSink [][]byte
 var probeSink []*[96]byte
+var twinBuilds int
+var saltCounter int
 var addrFlips, addrProbes int
 
 func TestMain(m *testing.M) {
@@ -72,11 +76,11 @@ func gen(rt *rapid.T) any {
 	if r.Prog.Corpus == "" {
 		r.Prog.ForceImports = gencommon.ForceImports(rt)
 	}
-	r.Front = gencommon.Front(rt, gencommon.FrontSpec{Faults: []string{"discard_ref", "abort_stmt", "abort_init", "discard_reset", "bigint_op", "inline_closure"}, MaxFaults: 3, FileAssign: true, HandlerFlip: true, Writes: true})
+	r.Front = gencommon.Front(rt, gencommon.FrontSpec{Faults: []string{"discard_ref", "abort_stmt", "abort_init", "discard_reset"}, MaxFaults: 3, Constructs: []string{"vblock", "inline_closure", "bigint_op", "unit_lit", "unsafe_ref"}, FileAssign: true, HandlerFlip: true, Writes: true})
 	r.Envs = []EnvSpec{
 		{Native: true},
 		{MapDflt: 0, PoolDflt: -1},
-		{MapDflt: 1, PoolDflt: 0, Ballast: 256, GCBefore: true, Scramble: 200},
+		{MapDflt: 1, PoolDflt: 0, Ballast: 256, GCBefore: true, Scramble: 200, Twin: true},
 	}
 	n := rapid.IntRange(1, 3).Draw(rt, "nenv")
 	for i := 0; i < n; i++ {
@@ -94,6 +98,7 @@ func gen(rt *rapid.T) any {
 		e.GOGC = rapid.SampledFrom([]int{0, 10, 100, 400}).Draw(rt, "gogc")
 		e.Pollute = rapid.IntRange(0, 2).Draw(rt, "pollute")
 		e.Scramble = rapid.SampledFrom([]int{0, 0, 50, 400}).Draw(rt, "scramble")
+		e.Twin = rapid.Bool().Draw(rt, "twin")
 		r.Envs = append(r.Envs, e)
 	}
 	return r
@@ -168,6 +173,17 @@ func buildIn(r *Record, e EnvSpec) *built {
 			addrFlips++
 		}
 	}
+	// every build has its own synthetic import paths (removed again from the output), so
+	// that records and environments never meet by accident; the twin - another revision of
+	// the same dependencies - deliberately shares them with the measured build
+	saltCounter++
+	salt := saltCounter
+	if e.Twin {
+		if t := prog.Twin(r.Prog); t != nil {
+			env.BuildSalted(t, &run.Front{XGoBuiltin: r.Front.XGoBuiltin, Faults: r.Front.Faults}, nil, salt)
+			twinBuilds++
+		}
+	}
 	for i := 0; i < e.Pollute; i++ {
 		p := polluters[i%len(polluters)]
 		if _, ok := env.Corpus[p]; ok {
@@ -176,7 +192,7 @@ func buildIn(r *Record, e EnvSpec) *built {
 	}
 	var ops []string
 	hooks := &minicl.Hooks{After: func(op string, x, y int) { ops = append(ops, op) }}
-	res := env.Build(r.Prog, r.Front, hooks)
+	res := env.BuildSalted(r.Prog, r.Front, hooks, salt)
 	return &built{res: res, hist: core.Hash(ops...), tapes: tp}
 }
 
@@ -476,7 +492,7 @@ func simplify(rec any) []any {
 		out = append(out, &c)
 	}
 	for i, e := range r.Envs {
-		if len(e.MapOrder) > 0 || len(e.Pool) > 0 || e.Ballast > 0 || e.Pollute > 0 || e.GOGC > 0 || e.Scramble > 0 {
+		if len(e.MapOrder) > 0 || len(e.Pool) > 0 || e.Ballast > 0 || e.Pollute > 0 || e.GOGC > 0 || e.Scramble > 0 || e.Twin {
 			c := *r
 			c.Envs = append([]EnvSpec{}, r.Envs...)
 			c.Envs[i] = EnvSpec{Native: e.Native, MapDflt: e.MapDflt, PoolDflt: e.PoolDflt}
@@ -495,6 +511,7 @@ func TestSim(t *testing.T) {
 		return map[string]any{
 			"corpus_packages_admitted": env.Paths,
 			"cross_process_records":    xprocRuns,
+			"twin_pollution_builds":    twinBuilds,
 			"cross_process_batches":    xprocBatches,
 			"heap_layout_probe":        fmt.Sprintf("%d of %d probe allocation pairs came out in descending address order", addrFlips, addrProbes),
 		}
